@@ -773,6 +773,12 @@ int main(int argc, char** argv)
 }
 static int Run()
 {
+    if (!vx::ctx().replay.empty()) {
+        // a replay file names one case; the enumeration is cheap, so the whole check is re-run and reports it again
+        std::ifstream f(vx::ctx().replay);
+        std::string l;
+        while (std::getline(f, l)) printf("replay> %s\n", l.c_str());
+    }
     setenv("RANDOM_CTX_SEED", "c17c17c17c17", 1);
     auto& E = vx::ev();
     const bool big = vx::thorough();
@@ -798,9 +804,7 @@ static int Run()
         // ---- Part B
         PartB b(node, use_xor);
         b.Setup();
-        printf("t=%.1f setup done\n", vx::elapsed());
         b.ReadLevel(rejected, cls, /*all_connect=*/big);
-        printf("t=%.1f readlevel done, %zu connect jobs\n", vx::elapsed(), b.connect_jobs.size());
         {
             fp::Pool pool;
             pool.workers = 8;
@@ -820,7 +824,6 @@ static int Run()
         }
         if (use_xor) for (auto& r : b.recs) E.sample(strprintf("record %s: file %d bytes [%u,%u) payload %u bytes", r.name, r.file, r.start, r.end, (unsigned)r.orig.size()));
 
-        printf("t=%.1f connect done\n", vx::elapsed());
         // ---- Part A (depth by depth so that a deadline leaves a completed bound)
         if (getenv("C17_SKIP_A")) continue;
         int maxd = big ? 5 : 4;
@@ -854,7 +857,7 @@ static int Run()
     E.set("partB_outcomes", oc + "}");
     for (auto& [k, v] : counts) printf("  %s = %llu\n", k.c_str(), (unsigned long long)v);
     for (auto& [k, v] : cls) printf("  [%s] = %llu\n", k.c_str(), (unsigned long long)v);
-    E.rule = "Part A: every history of length 1..depth over {WriteBlock x5 size classes (140 B, 20 kB, exactly filling the 64 KiB -fastprune file, one byte too many, 70 kB), WriteBlockUndo x3 (1 B, 30 kB, 69 kB), FlushChainstateBlockFile, prune oldest file} on a fresh real BlockManager, XOR key on and off; after each history all reads (ReadBlock index/pos, ReadRawBlock whole + 13 part ranges, ReadBlockUndo) compared byte for byte, records tile their files and match CBlockFileInfo, raw disk bytes match magic|size|payload(|checksum). "
+    E.rule = "Part A: every history of length 1..depth over {WriteBlock x5 size classes (160 B, 20 kB, exactly filling the 64 KiB -fastprune file, one byte too many, 70 kB), WriteBlockUndo x3 (1 B, 30 kB, 69 kB), FlushChainstateBlockFile, prune oldest file} on a fresh real BlockManager, XOR key on and off; after each history all reads (ReadBlock index/pos, ReadRawBlock whole + 13 part ranges, ReadBlockUndo) compared byte for byte, records tile their files and match CBlockFileInfo, raw disk bytes match magic|size|payload(|checksum). "
              "Part B: on a regtest node, for 3 block records and 3 undo records: every byte x {0x01,0x80} flip, every truncation length, every zeroed tail; ReadBlock/ReadBlockUndo must fail or return the original (strictly fail for magic/header/undo payload/checksum changes); flips that ReadBlock lets through with different tx bytes are replayed in a fork (InvalidateBlock, corrupt, ReconsiderBlock) and must not become active. "
              "distinct_nontrivial = distinct faults rejected at read + distinct faults blocked at connection + distinct multi-file layouts reached.";
     E.assume("regtest, -fastprune (64 KiB block files, 16 KiB chunks); stored blocks of part A are deserialisable one-transaction blocks hanging off a header-only spine (BlockManager does not look at transaction validity)");
